@@ -5,12 +5,15 @@ from ..core import AnchorMissing, origin_of_operand
 from ..e3 import Region, E3Error
 
 ROLES = ["try_ok", "cur_vis", "newer_some", "same_boundary", "must_preserve", "versioning", "bottom", "is_latest",
-         "hard_delete", "replace", "latest_del_bottom", "has_replace", "retention_pos", "expired"]
+         "hard_delete", "replace", "latest_del_bottom", "has_replace", "older_than_replace", "retention_pos", "expired"]
 DOMAIN = {
     "cur_vis": ["Bounded", "Newer", "NoActive"], "newer_some": [False, True], "same_boundary": [False, True],
     "versioning": [False, True], "bottom": [False, True], "is_latest": [False, True], "hard_delete": [False, True],
     "replace": [False, True], "latest_del_bottom": [False, True], "has_replace": [False, True],
     "retention_pos": [False, True], "expired": [False, True],
+    # NOT necessarily an input of the code: whether this version lies below (is older than) the newest REPLACE of the key.
+    # A replace erases what came before it, never what was written after it.
+    "older_than_replace": [False, True],
 }
 
 _cache = {}
@@ -46,6 +49,13 @@ def role_of(atom, value):
         return "latest_del_bottom", value
     if atom == "@has_replace":
         return "has_replace", value
+    # `newest_replace_idx.is_some_and(|r| i > r)`: this version lies below the newest replace
+    if "@replace_idx" in atom and ("is_some_and" in atom or atom.startswith("rel(")):
+        if atom.startswith("rel("):
+            return "older_than_replace", value in ("gt",) if atom.startswith("rel(i,") or atom.startswith("rel(@idx,") else value in ("lt",)
+        return "older_than_replace", value
+    if atom == "variant(@replace_idx)":
+        return "has_replace", value == "Some"
     return None
 
 
@@ -73,7 +83,11 @@ def table(f):
                 names[l] = "@latest_del_bottom"
         if ty.startswith("std::option::Option<") and "SnapshotVisibility" in ty and nm:
             names[l] = "@newer_vis"
-    if sorted(names.values()) != ["@has_replace", "@latest_del_bottom", "@newer_vis"]:
+        if ty.replace(" ", "") == "std::option::Option<usize>" and nm:
+            ds = b.defs().get(l, [])
+            if ds and not any(b.in_cycle(d[1]) for d in ds) and origin_of_operand(b, ["c", [l]], through_calls="all").from_call("std::iter::Iterator::position"):
+                names[l] = "@replace_idx"
+    if sorted(names.values()) not in (["@has_replace", "@latest_del_bottom", "@newer_vis"], ["@latest_del_bottom", "@newer_vis", "@replace_idx"]):
         raise AnchorMissing("process_accumulated_versions: pre-loop inputs not identified (%s)" % sorted(names.values()))
     # the loop index
     for l, (ty, nm) in enumerate(b.locals):
@@ -125,6 +139,12 @@ def feasible(t):
     if t["replace"] and not t["has_replace"]:
         return False
     if t["replace"] and t["hard_delete"]:
+        return False
+    if t["older_than_replace"] and not t["has_replace"]:
+        return False
+    if t["older_than_replace"] and t["is_latest"]:
+        return False
+    if t["has_replace"] and t["is_latest"] and not t["replace"] and False:
         return False
     return True
 
